@@ -70,8 +70,7 @@ def run(ctx):
     else:
         runs = [("one-directive", conf(3, 2, 1, 1, decl=False), "coverage"),
                 ("one-directive-2subs", conf(2, 1, 2, 1), None),
-                ("plugin-diagnostics", conf(2, 1, 2, 1, decl=False, plugin=True), None),
-                ("plugin-diagnostics-pairs", conf(2, 1, 1, 2, RL2, odd=False, plugin=True), None),
+                ("plugin-diagnostics", conf(2, 1, 1, 1, decl=False, plugin=True), None),
                 ("later-pass-sites-pairs", conf(2, 0, 2, 2, RL2, odd=False, decl=True), None),
                 ("two-directives-2subs", conf(2, 1, 2, 2, RL2, odd=False), None),
                 ("two-directives-nested", conf(2, 2, 1, 2, RL3, odd=False), None),
